@@ -14,7 +14,7 @@ namespace verif {
 const PropertyInfo kInfo = {
     "C05", 8, 8, 60,
     "tape -> Node (cleanup interval from {1,5,30}s, min TTL 2 s) with a fake peer and a separate publisher node that issues real foreign manifests. History of "
-    "store_chunk (3 local ids, TTL 2..40 s), ingest_manifest / ANNOUNCE (with provider endpoint) / receive_chunk of 2 foreign chunks (TTL 2..40 s), lookups placed "
+    "store_chunk (3 local ids, TTL 2..40 s), announce_chunk of a local id with its own TTL (2..80 s: the self-announcement may outlive the chunk), ingest_manifest / ANNOUNCE (with provider endpoint) / receive_chunk of 2 foreign chunks (TTL 2..40 s), lookups placed "
     "anywhere incl. between a deadline and the next tick (fetch_chunk, export_chunk_record, peer REQUEST), advance (to next deadline exactly / +-1ns / to the next "
     "cleanup instant / random), tick + drain_cleanup_notifications. Oracle after each tick whose cleanup branch ran at T: no chunk record, locator, holder contact, "
     "shard record, cached manifest or swarm plan belongs to something that expired by T; no self-announcement for an expired local chunk; audit_ttl() lists no expired "
@@ -167,7 +167,17 @@ void run_case(Ctx& c) {
         Rec r = t.r(i);
         int k = r.a(0) % 3;
         int f = 3 + r.a(0) % 2;
-        switch (r.op() % 12) {
+        switch (r.op() % 13) {
+            case 12: {
+                // the public announce call with its own TTL: the node's announcement for a local chunk may outlive the chunk
+                int ttl = kTtl[r.a(1) % 8] + static_cast<int>(r.a(2) % 40);
+                // (callers announce chunks they hold: store_chunk and the replica path announce right after storing)
+                if (!chunks.count(k) || chunks[k].deadline <= now()) break;
+                c.note("|announce(c%d,ttl=%d)", k, ttl);
+                node.announce_chunk(cid(k), seconds(ttl));
+                c.label("announce_with_own_ttl");
+                break;
+            }
             case 0:
             case 10: {
                 int ttl = kTtl[r.a(1) % 8];
